@@ -121,4 +121,19 @@ func init() {
 		return strVal(mkConcat(parts...))
 	})
 	regSym("net/url.QueryEscape", func(fr *frame, a []value) value { return strVal(queryEscapeTermC(fr, strArg(a[0]))) })
+
+	// ---- environment: the HTTP client used to fetch an OpenID Connect request_uri. There is no network in
+	// the model (nor in the sandbox of the native replays): every fetch fails.
+	reg("github.com/hashicorp/go-retryablehttp.NewClient", func(fr *frame, a []value) value {
+		var cell value = native{retryClientTag{}}
+		return &cell
+	})
+	reg("(*github.com/hashicorp/go-retryablehttp.Client).Get", func(fr *frame, a []value) value {
+		m := fr.i.m
+		m.ghost["log:http.Get"] = append(m.ghost["log:http.Get"], a[1])
+		m.note("environment: fetching a request_uri over HTTP fails (no network); the attempt is logged")
+		return tuple{(*value)(nil), mkSymErr("retryablehttp", mkConcat(mkStr("Get "), mkStr("\""), strArg(a[1]), mkStr("\": fetch failed")))}
+	})
 }
+
+type retryClientTag struct{}
